@@ -40,11 +40,11 @@ pub struct Profile {
     pub special: Option<fn(&World, &mut Src, &Profile, &mut GenState, usize) -> Option<Step>>,
 }
 
-pub const MIXED: Profile = Profile { name: "mixed", w: [10, 6, 10, 8, 3, 1, 4, 1, 1, 1], adversarial_16: 2, extra_ask_16: 1, funds_games_16: 1, max_pairs: 3, connected: false, hostile: false, special: None };
+pub const MIXED: Profile = Profile { name: "mixed", w: [10, 6, 10, 8, 3, 1, 4, 2, 1, 1], adversarial_16: 2, extra_ask_16: 1, funds_games_16: 1, max_pairs: 3, connected: false, hostile: false, special: None };
 pub const SWAPPY: Profile = Profile { name: "swappy", w: [6, 2, 14, 12, 2, 0, 4, 0, 0, 1], adversarial_16: 1, extra_ask_16: 2, funds_games_16: 0, max_pairs: 3, connected: false, hostile: false, special: None };
 pub const SETTLE: Profile = Profile { name: "settlement", w: [6, 2, 12, 14, 2, 1, 2, 0, 0, 0], adversarial_16: 9, extra_ask_16: 1, funds_games_16: 5, max_pairs: 3, connected: false, hostile: false, special: None };
 pub const FUNDS: Profile = Profile { name: "funds", w: [12, 1, 14, 6, 1, 0, 0, 0, 0, 0], adversarial_16: 3, extra_ask_16: 1, funds_games_16: 11, max_pairs: 2, connected: false, hostile: false, special: None };
-pub const LIQUIDITY: Profile = Profile { name: "liquidity", w: [12, 12, 6, 5, 4, 2, 1, 1, 0, 1], adversarial_16: 1, extra_ask_16: 1, funds_games_16: 0, max_pairs: 2, connected: false, hostile: false, special: None };
+pub const LIQUIDITY: Profile = Profile { name: "liquidity", w: [12, 12, 6, 5, 4, 2, 1, 2, 0, 1], adversarial_16: 1, extra_ask_16: 1, funds_games_16: 0, max_pairs: 2, connected: false, hostile: false, special: None };
 pub const HOSTILE: Profile = Profile { name: "hostile", w: [8, 3, 10, 8, 8, 2, 2, 0, 0, 1], adversarial_16: 0, extra_ask_16: 2, funds_games_16: 0, max_pairs: 2, connected: false, hostile: true, special: None };
 pub const ROUTES: Profile = Profile { name: "routes", w: [8, 2, 5, 4, 1, 0, 12, 0, 0, 0], adversarial_16: 0, extra_ask_16: 1, funds_games_16: 0, max_pairs: 5, connected: true, hostile: false, special: None };
 
@@ -536,10 +536,12 @@ pub fn gen_allowance(w: &World, s: &mut Src, _prof: &Profile) -> Step {
     let h = w.holders()[s.idx(w.holders().len())].to_string();
     let spender = if s.chance(1, 4) { w.router.to_string() } else { w.pairs[s.idx(w.pairs.len())].addr.to_string() };
     let amt = s.bits_u128(100).max(1);
-    let msg = if s.bool() {
-        Cw20ExecuteMsg::IncreaseAllowance { spender, amount: Uint128::new(amt), expires: None }
-    } else {
-        Cw20ExecuteMsg::DecreaseAllowance { spender, amount: Uint128::new(amt), expires: None }
+    let msg = match s.weighted(&[3, 2, 2]) {
+        0 => Cw20ExecuteMsg::IncreaseAllowance { spender, amount: Uint128::new(amt), expires: None },
+        1 => Cw20ExecuteMsg::DecreaseAllowance { spender, amount: Uint128::new(amt), expires: None },
+        // revoke: the holder's allowance toward this spender drops to zero (cw20-base removes it), so a
+        // later deposit by this holder cannot be pulled - and must not be pulled from anyone else
+        _ => Cw20ExecuteMsg::DecreaseAllowance { spender, amount: Uint128::new(u128::MAX >> 1), expires: None },
     };
     Step { sender: h, call: Call::Cw20 { token: t.addr.to_string(), msg }, funds: vec![] }
 }
